@@ -26,9 +26,11 @@
   `NewNVarStore` (FianoModel/Nvram/Model.lean, imported) reads from the file's own bytes under the erase
   polarity of the enclosing volume (`nvOfFile`, `nvEntries`).  summary.json / ParseDir / Assemble of the
   entries themselves are modelled separately (Uefi/ExtractNvar.lean, ExtractNvarLoad.lean); `okTree`
-  (the round-trip theorems) still asks for a tree without store.
-  Not modelled: the ME partition table (no file is written for it, its JSON is not looked at by
-  `Assemble`).  The JSON text layer itself (`encoding/json`) and the file system are assumed:
+  asks for a tree without store, `okNvTree` (follow-up wp-c07c, Uefi/ExtractNvTreeDefs.lean) allows them: there
+  the hooks are C10's parser / assembler and the tree-level round trip is proved for trees with stores.
+  The ME partition table (no file is written for it, its JSON is not looked at by `Assemble`) is modelled at
+  region level in Uefi/ExtractMe.lean (follow-up wp-c07c); the tree's `Region.me` does not carry it.
+  The JSON text layer itself (`encoding/json`) and the file system are assumed:
   a field that is marshalled comes back with the value it had.
 
   Core Lean only.
